@@ -18,8 +18,8 @@ import (
 // 	DataOffset	4Byte	FLV Header Length
 const (
 	FlvHeaderSize   = 9
-	TypeFlagsVideo  = 0x04
-	TypeFlagsAudio  = 0x01
+	TypeFlagsVideo  = 0x01 // FLV 规范: bit0 为视频
+	TypeFlagsAudio  = 0x04 // FLV 规范: bit2 为音频
 	TypeFlagsOffset = 4
 )
 
